@@ -13,7 +13,7 @@ func NewFilterLifeLevel() *FilterLifeLevel {
 	char.Perms = []string{PermRead, PermEvents}
 	char.SetMinValue(0)
 	char.SetMaxValue(100)
-
+	char.SetStepValue(1)
 	char.SetValue(0)
 
 	return &FilterLifeLevel{char}
